@@ -487,6 +487,8 @@ func waitFor(d time.Duration, f func() bool) bool {
 	}
 }
 
+var leakSeen bool
+
 var (
 	once       sync.Once
 	netTimeout = 700 * time.Millisecond
@@ -622,11 +624,18 @@ func (w *world) round(r Val) Val {
 	}
 
 	// mid observation: the requester has its answer
+	midWait := 3 * time.Second
+	if leakSeen {
+		midWait = 150 * time.Millisecond
+	}
 	if outcome == 1 {
-		waitFor(3*time.Second, func() bool { return media.Get(w.path) == got.s })
-		waitFor(3*time.Second, func() bool {
+		ok1 := waitFor(midWait, func() bool { return media.Get(w.path) == got.s })
+		ok2 := waitFor(midWait, func() bool {
 			return stats.RtspConns.GetSample().Active-w.base == 1
 		})
+		if !ok1 || !ok2 {
+			leakSeen = true
+		}
 	} else if outcome == 0 {
 		// a failed pull must have cleaned up when the requester gets its answer; allow the
 		// camera goroutine a moment to notice the close (it only affects the fd count)
@@ -660,16 +669,29 @@ func (w *world) round(r Val) Val {
 	acc := cam.accepted
 	cam.mu.Unlock()
 	if acc > accepted0 {
+		limit := netTimeout*3 + 8*time.Second
+		if leakSeen {
+			limit = netTimeout + 300*time.Millisecond
+		}
 		select {
 		case <-cam.playDone:
-		case <-time.After(netTimeout*3 + 8*time.Second):
+		case <-time.After(limit):
+			leakSeen = true
 		}
 	}
-	waitFor(netTimeout+3*time.Second, func() bool {
+	// the clean-up is asynchronous; once a leftover has been seen in this process (the run is failing
+	// anyway) later rounds do not wait long for states that will never come
+	settle := netTimeout + 3*time.Second
+	if leakSeen {
+		settle = 150 * time.Millisecond
+	}
+	if !waitFor(settle, func() bool {
 		c, r, n, g := w.resources()
 		return c == 0 && r == 0 && n == 0 && g == 0 && (cons == nil || atomic.LoadInt32(&cons.closed) == 1) &&
 			atomic.LoadInt32(&cam.open) == 0
-	})
+	}) {
+		leakSeen = true
+	}
 	fc, fr, fn, fg := w.resources()
 	cc := int64(1)
 	if cons != nil {
@@ -792,10 +814,16 @@ func concCase(c Val) Val {
 	})
 	time.Sleep(5 * time.Millisecond)
 	close(cam.kick)
-	waitFor(netTimeout+3*time.Second, func() bool {
+	settle := netTimeout + 3*time.Second
+	if leakSeen {
+		settle = 300 * time.Millisecond
+	}
+	if !waitFor(settle, func() bool {
 		cn, r, k, g := w.resources()
 		return cn == 1 && r == 1 && k == 1 && g == 1
-	})
+	}) {
+		leakSeen = true
+	}
 	cn, _, k, g := w.resources()
 	live := int64(0)
 	for _, s := range got {
@@ -812,10 +840,15 @@ func concCase(c Val) Val {
 		}
 	}
 	close(cam.gate)
-	waitFor(netTimeout+3*time.Second, func() bool {
+	if leakSeen {
+		settle = 300 * time.Millisecond
+	}
+	if !waitFor(settle, func() bool {
 		cn, r, k, g := w.resources()
 		return cn == 0 && r == 0 && k == 0 && g == 0 && atomic.LoadInt32(&cam.open) == 0
-	})
+	}) {
+		leakSeen = true
+	}
 	fc, fr, fk, fg := w.resources()
 	if s := media.Get(w.path); s != nil {
 		media.Unregist(s)
